@@ -112,8 +112,45 @@ def closureIter (inp : RunInput) (nTasks : Nat) (tr : List Ev) : Nat → List Na
 def closureOf (inp : RunInput) (nTasks : Nat) (tr : List Ev) : List Name :=
   closureIter inp nTasks tr (nTasks + 1) (addNew [] inp.sel)
 
+/-! #### the closure including what FAILED calc tasks delivered
+
+`_process_calc_dep_results` reads `task.values` of a calc task whatever its `run_status`: a calc task whose execution
+failed still delivers what its actions returned before the failing one (`Run.deliverF`, oracle `calcResFail`).  The
+waiting task is reported unmet, but what was delivered is created and processed — it belongs to the closure this run
+determined.  `closureOf` (executed / up-to-date deliveries only) is kept for the developments that are stated for inputs
+without such values; on those the two coincide. -/
+
+def Ev.isFailRepOf (d : Name) : Ev → Bool
+  | .failure n _ => n = d
+  | _ => false
+
+/-- `c` was executed in `tr` (an action start is recorded) and reported failed -/
+def failedRunIn (tr : List Ev) (c : Name) : Bool := tr.any (Ev.isStartOf c) && tr.any (Ev.isFailRepOf c)
+
+/-- what calc task `c` delivered in the run `tr` -/
+def resAt (inp : RunInput) (tr : List Ev) (c : Name) : CalcRes :=
+  if finishedIn tr c then inp.calcRes c else if failedRunIn tr c then inp.calcResFail c else {}
+
+def calcsAtF (inp : RunInput) (tr : List Ev) : Nat → List Name → List Name
+  | 0, cs => cs
+  | fuel + 1, cs => calcsAtF inp tr fuel (addNew cs (cs.flatMap fun c => (resAt inp tr c).calcs))
+
+def closeOnceF (inp : RunInput) (nTasks : Nat) (tr : List Ev) (cl : List Name) : List Name :=
+  cl.foldl (fun acc t =>
+    addNew acc (inp.taskDep t ++ calcsAtF inp tr nTasks (inp.calcDep t) ++
+      ((calcsAtF inp tr nTasks (inp.calcDep t)).flatMap fun c => (resAt inp tr c).tasks ++ (resAt inp tr c).files) ++
+      (if ranFirst inp nTasks tr t then inp.setup t else []))) cl
+
+def closureIterF (inp : RunInput) (nTasks : Nat) (tr : List Ev) : Nat → List Name → List Name
+  | 0, cl => cl
+  | fuel + 1, cl => closureIterF inp nTasks tr fuel (closeOnceF inp nTasks tr cl)
+
+/-- the closure of the selection as far as this run determined it, deliveries of failed calc tasks included -/
+def closureOfF (inp : RunInput) (nTasks : Nat) (tr : List Ev) : List Name :=
+  closureIterF inp nTasks tr (nTasks + 1) (addNew [] inp.sel)
+
 def monC02InsideClosure (inp : RunInput) (nTasks : Nat) (tr : List Ev) : Bool :=
-  (List.range nTasks).all fun t => tr.any (Ev.mentions t) → t ∈ closureOf inp nTasks tr
+  (List.range nTasks).all fun t => tr.any (Ev.mentions t) → t ∈ closureOfF inp nTasks tr
 
 /-- the run was not cut short: finished normally, and no failure stopped it -/
 def runComplete (inp : RunInput) (tr : List Ev) (exit : Nat) : Bool :=
@@ -122,6 +159,6 @@ def runComplete (inp : RunInput) (tr : List Ev) (exit : Nat) : Bool :=
 
 def monC02AllProcessed (inp : RunInput) (nTasks : Nat) (tr : List Ev) (exit : Nat) : Bool :=
   !runComplete inp tr exit ||
-  (closureOf inp nTasks tr).all fun t => (tr.filter (Ev.isTerminalOf t)).length == 1
+  (closureOfF inp nTasks tr).all fun t => (tr.filter (Ev.isTerminalOf t)).length == 1
 
 end DoitModel.Run
